@@ -111,6 +111,15 @@ func aliasFindings(c *Ctx, a *aliasAn, ln *litNamer) (finds []aliasFinding, cove
 		id := ln.id(fn)
 		covered[id] = fn
 		seen := map[string]bool{}
+		// an unexported helper written since the reference is not a Python-level operation of its own: what it
+		// returns or keeps is followed into its callers through its summary and decided there
+		newHelper := false
+		if f, ok := fn.Object().(*types.Func); ok && !f.Exported() && isNewFunc(FuncID(f)) {
+			newHelper = true
+		}
+		if newHelper {
+			continue
+		}
 		for _, rs := range a.ret[fn] {
 			for at := range rs {
 				if at.fn != fn {
